@@ -284,3 +284,34 @@ pub(crate) fn interner_yield() {
         }
     }
 }
+
+// ---------------------------------------------------------------------------
+// H12: fault injection for calls of exported WASM functions (C11: a scheduled task that fails
+// while others are due in the same sample). Per thread, off unless armed by the harness.
+
+thread_local! {
+    /// (name of the exported function, which matching call fails (1-based), matching calls seen)
+    static FAILPOINT: std::cell::RefCell<Option<(String, u64, u64)>> = const { std::cell::RefCell::new(None) };
+}
+
+/// Make the `nth` call (1-based) of the exported WASM function `name` on this thread return an error
+/// without running it.
+pub fn failpoint_arm(name: &str, nth: u64) {
+    FAILPOINT.with(|f| *f.borrow_mut() = Some((name.to_string(), nth, 0)));
+}
+
+/// Disarm; returns how many matching calls were seen while armed.
+pub fn failpoint_disarm() -> u64 {
+    FAILPOINT.with(|f| f.borrow_mut().take().map_or(0, |x| x.2))
+}
+
+/// Called by `WasmEngine::execute_function`: should this call fail?
+pub fn failpoint_hit(name: &str) -> bool {
+    FAILPOINT.with(|f| match f.borrow_mut().as_mut() {
+        Some((n, nth, seen)) if n == name => {
+            *seen += 1;
+            *seen == *nth
+        }
+        _ => false,
+    })
+}
